@@ -66,13 +66,29 @@ impl<T> Sender<T> {
     }
 
     pub fn send(&self, msg: T) -> Result<(), SendError<T>> {
+        match self.send_until(msg, None) {
+            Ok(()) => Ok(()),
+            Err(SendTimeoutError::Disconnected(m)) | Err(SendTimeoutError::Timeout(m)) => Err(SendError(m)),
+        }
+    }
+
+    pub fn send_timeout(&self, msg: T, d: Duration) -> Result<(), SendTimeoutError<T>> {
+        let dl = rt::now_ns().saturating_add(d.as_nanos().min(u64::MAX as u128) as u64);
+        self.send_until(msg, Some(dl))
+    }
+
+    pub fn send_deadline(&self, msg: T, deadline: crate::time::Instant) -> Result<(), SendTimeoutError<T>> {
+        self.send_until(msg, Some(deadline.as_nanos()))
+    }
+
+    fn send_until(&self, msg: T, deadline_ns: Option<u64>) -> Result<(), SendTimeoutError<T>> {
         rt::point(Op::ChanSend);
         let mut msg = Some(msg);
         loop {
             {
                 let mut c = self.sh.st.lock().unwrap();
                 if c.receivers == 0 {
-                    return Err(SendError(msg.take().unwrap()));
+                    return Err(SendTimeoutError::Disconnected(msg.take().unwrap()));
                 }
                 let full = c.full();
                 if !full {
@@ -87,7 +103,21 @@ impl<T> Sender<T> {
             if !rt::in_sim() {
                 panic!("simrt channel: blocking send outside a simulation");
             }
-            rt::block(Obj::ChanSend(self.sh.id), None);
+            if rt::block(Obj::ChanSend(self.sh.id), deadline_ns) == Wake::TimedOut {
+                // one last look, as crossbeam does
+                let mut c = self.sh.st.lock().unwrap();
+                if c.receivers > 0 && !c.full() {
+                    c.q.push_back(msg.take().unwrap());
+                    let len = c.q.len();
+                    drop(c);
+                    rt::emit(SeamEvent::ChanSend { chan: self.sh.id, tid: rt::current_tid(), len_after: len });
+                    rt::wake_all(Obj::ChanRecv(self.sh.id));
+                    return Ok(());
+                }
+                drop(c);
+                rt::emit(SeamEvent::ChanFull { chan: self.sh.id, tid: rt::current_tid() });
+                return Err(SendTimeoutError::Timeout(msg.take().unwrap()));
+            }
         }
     }
 
@@ -200,6 +230,10 @@ impl<T> Receiver<T> {
 
     pub fn recv(&self) -> Result<T, RecvError> {
         self.recv_deadline(None).map_err(|_| RecvError)
+    }
+
+    pub fn recv_deadline_at(&self, deadline: crate::time::Instant) -> Result<T, RecvTimeoutError> {
+        self.recv_deadline(Some(deadline.as_nanos()))
     }
 
     pub fn recv_timeout(&self, d: Duration) -> Result<T, RecvTimeoutError> {
